@@ -147,6 +147,13 @@ pub fn variants(base: &Base) -> Vec<Variant> {
             t.signature[5] ^= 1;
             true
         });
+        edit!("signature-other-encoding", |t: &mut Transaction| {
+            // (r, n - s) is the second encoding of the same ECDSA signature; the signature bytes are
+            // carried by the block but not covered by its hash, so only a verifier that accepts
+            // exactly one encoding keeps the carried bytes fixed
+            mirror_s(&mut t.signature);
+            true
+        });
         edit!("timestamp", |t: &mut Transaction| {
             t.timestamp ^= 1;
             true
@@ -329,6 +336,12 @@ pub fn variants(base: &Base) -> Vec<Variant> {
     b.generate().unwrap();
     b.sign(&key(3).private);
     push("resigned-by-other-key-creator-unchanged".into(), "creator", b);
+    // the creator's signature in its second encoding
+    let mut x = raw.clone();
+    let mut sg: [u8; 64] = x[117..181].try_into().unwrap();
+    mirror_s(&mut sg);
+    x[117..181].copy_from_slice(&sg);
+    v.borrow_mut().push(Variant { label: "creator-signature-other-encoding".into(), class: "header:signature-other-encoding".into(), bytes: x });
     // transaction count field vs carried transactions
     let mut x = raw.clone();
     let cnt = u32::from_be_bytes(x[0..4].try_into().unwrap());
@@ -527,4 +540,22 @@ pub fn main(tier: Tier, _replay: Option<String>) -> i32 {
         }
     }
     rep.finish()
+}
+
+/// s -> n - s on the second half of a compact secp256k1 signature (n = group order), big endian
+fn mirror_s(sig: &mut [u8; 64]) {
+    const N: [u8; 32] = [
+        0xFF, 0xFF, 0xFF, 0xFF, 0xFF, 0xFF, 0xFF, 0xFF, 0xFF, 0xFF, 0xFF, 0xFF, 0xFF, 0xFF, 0xFF, 0xFE, 0xBA, 0xAE, 0xDC, 0xE6, 0xAF, 0x48, 0xA0, 0x3B, 0xBF, 0xD2, 0x5E, 0x8C, 0xD0, 0x36, 0x41, 0x41,
+    ];
+    let mut borrow = 0i16;
+    for i in (0..32).rev() {
+        let d = N[i] as i16 - sig[32 + i] as i16 - borrow;
+        if d < 0 {
+            sig[32 + i] = (d + 256) as u8;
+            borrow = 1;
+        } else {
+            sig[32 + i] = d as u8;
+            borrow = 0;
+        }
+    }
 }
